@@ -389,6 +389,8 @@ fn c15(tc: &Toolchain, tier: &str, tag: &str, seed: u64, thorough: bool, root: &
     let probes = crate::c15::reject_probes(&rshapes, &picks);
     let rres = par_map(&probes, threads, |i, (_, bad, twin)| (tc.compile(&format!("c15_rej_{i}"), bad, false), tc.compile(&format!("c15_twin_{i}"), twin, false)));
     let mut rejected: BTreeMap<String, u64> = BTreeMap::new();
+    let known15 = known_signatures(root, "C15");
+    let mut known_hits15: Vec<String> = Vec::new();
     for ((class, bad, _), (b, t)) in probes.iter().zip(rres) {
         if !t.ok {
             eprintln!("gcverif: defect-free twin of a rejection probe does not compile (cannot decide): {class}: {}", t.stderr.lines().take(6).collect::<Vec<_>>().join(" | "));
@@ -398,6 +400,11 @@ fn c15(tc: &Toolchain, tier: &str, tag: &str, seed: u64, thorough: bool, root: &
         if !b.ok && (b.stderr.contains("conflicting generic parameters") || crate::probe::generator_fault(&b.stderr)) {
             eprintln!("gcverif: a rejection probe was rejected for an unrelated reason (cannot decide): {class}: {}", b.stderr.lines().take(4).collect::<Vec<_>>().join(" | "));
             code = code.max(2);
+            continue;
+        }
+        if b.ok && known15.iter().any(|k| class.starts_with(k.as_str())) {
+            // listed as `known:` in KNOWN_FINDINGS.txt: reported by ./check as a KNOWN-FINDING line
+            known_hits15.push(class.clone());
             continue;
         }
         if b.ok {
@@ -435,6 +442,7 @@ fn c15(tc: &Toolchain, tier: &str, tag: &str, seed: u64, thorough: bool, root: &
         "shape_classes": classes.len(),
         "rejection_probes": probes.len(),
         "rejected_by_class": rejected,
+        "known_findings_reproduced": known_hits15,
         "build": tag,
     });
     let assumptions = ["rustc compiles the generated programs as a user's compiler would; the generator's own NEEDS_TRACE computation follows the statement (disjunction over traced field types)", "grammar-bounded sample of shape space (<= 5 fields per variant, <= 5 variants, type nesting depth <= 3)"];
